@@ -246,6 +246,14 @@ def r2_lookup_order(ctx, rep):
                "an impossible / unknown kind qualifier is reported and the reference stays plain text" if ok else
                f"`{e.text()[:60]}` lets the ValueError of an impossible kind qualifier escape (or re-raises it): `[[mod:foo(bound)]]` "
                f"aborts the run instead of being rendered as plain text with a warning", py.nloc(e.node), nontrivial=not ok)
+    # (f'') a source file has a page only when incl_src is on (FortranSourceFile.visible records exactly that): the href of a
+    # [[file]] reference must depend on it, otherwise the link points at a page that is never written
+    for h in hrefs:
+        ok = any("visible" in c for c in h.cond_texts())
+        rep.ob("a reference to a source file is only linked when source pages are written", ok,
+               "the href is set under a condition on the item's `visible` flag" if ok else
+               "the href is set for every item found: with `incl_src: false`, `[[prog.f90]]` links to sourcefile/prog.f90.html, which is "
+               "not generated", py.nloc(h.node), nontrivial=not ok)
     # (g) the link is relative to the page being converted, external URLs stay absolute
     rel = [e for e in ev if e.kind == "call" and call_name(e.node).split(".")[-1] in ("relpath", "relative_to")]
     ok = any("current_path" in e.text() for e in rel) and any(
